@@ -16,6 +16,7 @@ import (
 	"strconv"
 	"strings"
 	"sync"
+	"sync/atomic"
 	"time"
 
 	"github.com/datastax/cql-proxy/codecs"
@@ -89,7 +90,7 @@ type Conn struct {
 	host        *Host
 	c           net.Conn
 	wmu         sync.Mutex
-	version     primitive.ProtocolVersion
+	version     atomic.Int32 // protocol version of the last frame (read by delayed replies)
 	compression string
 	keyspace    string
 	registered  bool
@@ -504,6 +505,9 @@ func (h *Host) accept(ln net.Listener) {
 	}
 }
 
+func (c *Conn) ver() primitive.ProtocolVersion     { return primitive.ProtocolVersion(c.version.Load()) }
+func (c *Conn) setVer(v primitive.ProtocolVersion) { c.version.Store(int32(v)) }
+
 func (c *Conn) close() {
 	c.wmu.Lock()
 	c.closed = true
@@ -527,7 +531,7 @@ func (c *Conn) sendMsg(stream int16, msg message.Message) { c.sendMsgMod(stream,
 
 func (c *Conn) sendMsgMod(stream int16, msg message.Message, mod func(*frame.Frame)) {
 	var buf bytes.Buffer
-	frm := frame.NewFrame(c.version, stream, msg)
+	frm := frame.NewFrame(c.ver(), stream, msg)
 	if mod != nil {
 		mod(frm)
 	}
@@ -537,7 +541,7 @@ func (c *Conn) sendMsgMod(stream int16, msg message.Message, mod func(*frame.Fra
 	if err := c.codec.EncodeFrame(frm, &buf); err != nil {
 		// a reply this backend cannot express (e.g. a keyspace name the protocol cannot carry): answer as a server would
 		buf.Reset()
-		if err2 := c.codec.EncodeFrame(frame.NewFrame(c.version, stream, &message.Invalid{ErrorMessage: "fb: " + err.Error()}), &buf); err2 != nil {
+		if err2 := c.codec.EncodeFrame(frame.NewFrame(c.ver(), stream, &message.Invalid{ErrorMessage: "fb: " + err.Error()}), &buf); err2 != nil {
 			panic(fmt.Sprintf("fb: cannot encode %T: %v", msg, err))
 		}
 	}
@@ -624,8 +628,8 @@ func (c *Conn) handle(hdr, body, raw []byte) bool {
 	opcode := primitive.OpCode(hdr[4])
 	rec := Rec{Version: byte(version), Stream: stream, Opcode: hdr[4], Flags: hdr[1], Raw: raw}
 
-	if c.version == 0 {
-		c.version = version
+	if c.ver() == 0 {
+		c.setVer(version)
 	}
 	if version > be.MaxVersion || !version.IsSupported() {
 		be.mu.Lock()
@@ -640,10 +644,10 @@ func (c *Conn) handle(hdr, body, raw []byte) bool {
 		var buf bytes.Buffer
 		_ = codecs.DefaultRawCodec.EncodeFrame(frame.NewFrame(v, stream, &message.ProtocolError{ErrorMessage: "Invalid or unsupported protocol version"}), &buf)
 		c.writeRaw(buf.Bytes())
-		c.version = 0
+		c.setVer(0)
 		return true
 	}
-	c.version = version
+	c.setVer(version)
 	if be.StrictVersion && c.started && byte(version) != c.startupVer {
 		be.mu.Lock()
 		rec.Kind = "version-mismatch"
@@ -652,7 +656,7 @@ func (c *Conn) handle(hdr, body, raw []byte) bool {
 		var buf bytes.Buffer
 		_ = codecs.DefaultRawCodec.EncodeFrame(frame.NewFrame(primitive.ProtocolVersion(c.startupVer), stream, &message.ProtocolError{ErrorMessage: "Invalid message version. Got " + version.String() + " but previous messages on this connection had version " + primitive.ProtocolVersion(c.startupVer).String()}), &buf)
 		c.writeRaw(buf.Bytes())
-		c.version = primitive.ProtocolVersion(c.startupVer)
+		c.setVer(primitive.ProtocolVersion(c.startupVer))
 		return true
 	}
 
@@ -907,7 +911,7 @@ func (c *Conn) apply(stream int16, out Outcome, token string) bool {
 			go c.host.dropAll()
 			return false
 		case RawReply:
-			v, st := byte(c.version)|0x80, stream
+			v, st := byte(c.ver())|0x80, stream
 			if out.RawVersion != 0 {
 				v = out.RawVersion
 			}
@@ -975,7 +979,7 @@ func hostID(ip string) *primitive.UUID {
 
 // systemRows answers SELECT * FROM system.local / system.peers (be.mu held).
 func (b *Backend) systemRows(c *Conn, local bool) message.Message {
-	v := c.version
+	v := c.ver()
 	cols := []*message.ColumnMetadata{
 		{Keyspace: "system", Table: "t", Name: "key", Type: datatype.Varchar},
 		{Keyspace: "system", Table: "t", Name: "rpc_address", Type: datatype.Inet},
